@@ -21,19 +21,25 @@ LEVEL_TEXT = ('Lean 4 theorems, for all tilt lists, angles, samplings and OPDs: 
               'evaluate, for alpha = dx·du/(λ z os) (through C02 propagateField_sample); what fit_tilt subtracts is exactly the OPD ramp of '
               'the Tilt it records, for ANY coefficients, per segment and over any history; if the coefficients solve the normal equations '
               '(lstsq contract) and the Gram matrix is non-singular, every least-squares fit of the remaining OPD has zero tip/tilt and the '
-              'same piston; first-order dispersive displacement lies on its trace at arc length |d(λ)|. The field in the end-to-end theorems is the '
+              'same piston; first-order dispersive displacement lies on its trace at arc length |d(λ)|; for trace/dispersion polynomials of any order, '
+              'under the solver contract DispersiveSolved (both residuals handed to scipy.optimize.leastsq vanish; residuals and arc-length integrand are '
+              'regenerated from _dist_cost_func/_trace_cost_func/_trace_dist_func), dispersive_general_spec: the displacement lies on the trace polynomial, '
+              'the dispersion polynomial maps dist to the wavelength and dist is the arc length ∫√(1+T\'²) to the displacement; '
+              'first_order_closed_form_is_solution: the generated closed-form branch is exactly the solution of that contract. The field in the end-to-end theorems is the '
               'plane model\'s segment phasor (C03/C07 segPhasor/planePh) and the theorem covers any list of angular elements; for a segmented plane '
               'whose segments carry DIFFERENT tilts, segmented_tilt_equiv_complex: the sum over segments of the per-segment propagations with tilt metadata '
               '(each split derived from its own Field.shift) equals the sum with each segment\'s ramp written into its OPD, at every sample all windows cover; the tilt lists of '
               'Wavefront(tilt), products and Tilt planes are derived from the generated wiring. Regenerated: Tilt.__init__/shift, first-order '
               'DispersiveTilt.shift, Field.shift units and axes, ptt_vector rows, subtracted rows/coefficients, recorded indices, the tilt[n::size] '
               'stride, Wavefront.__init__/Field.__mul__/TiltInterface.multiply list wiring.')
-LEVEL_NOTE = ('Partial: np.linalg.lstsq returning a solution of the normal equations is a contract (re-solved independently by the oracle); '
-              'higher-order DispersiveTilt (scipy leastsq/quad) is oracle-only; list aliasing / reuse of wavefronts (Field.__mul__, '
-              'TiltInterface.multiply) is covered by correspondence + oracle (tilt lists are values in the model). '
+LEVEL_NOTE = ('Partial, two stated contracts: (1) np.linalg.lstsq returns a solution of the normal equations of the masked basis — the single trusted '
+              'fact of the fit clause (hypothesis hN of fit_tilt_is_least_squares), re-solved independently and checked by the oracle on every case; '
+              '(2) for DispersiveTilt of order > 1, scipy.optimize.leastsq/scipy.integrate.quad return a root of the generated residuals (DispersiveSolved), '
+              'checked numerically by the oracle on every generated element (on the trace; dispersion(arc length) = wavelength to 2e-6). '
+              'List aliasing / reuse of wavefronts (Field.__mul__, TiltInterface.multiply) is covered by correspondence + oracle (tilt lists are values in the model). '
               'Trusted: Lean kernel, generator coverage, NumPy einsum/lstsq as modelled.')
 TECHNIQUE = 'Lean 4 proof (induction over tilt lists / histories, ring, Real.sqrt) over translator-regenerated tilt/fit wiring + hand model with differential correspondence at Float'
-GEN = ['Extent', 'Window', 'PropagateMeta', 'TiltFit', 'FieldMerge', 'FieldDispatch', 'FieldAccum']
+GEN = ['Extent', 'FftScratch', 'FieldDispatch', 'FieldIdx', 'FieldMerge', 'FourierWiring', 'Helper', 'Helper20', 'Hex', 'Mesh', 'PlanePhase', 'PlaneType', 'PropagateMeta', 'TiltFit', 'Util', 'Window', 'FieldAccum']      # every Gen module the model, lemmas and driver import (transitively)
 OPS = ['C02', 'C04']
 RULE = ('cases: (shift) lists of 1..4 angular / first-order dispersive / higher-order dispersive elements, all orderings, per-axis du, os 1..4; '
         '(fit) planes 2..7 x 2..7 with 1..3 segments, per-axis pixelscale, OPD = ramp + random, second fit after an OPD update; '
@@ -43,10 +49,11 @@ RULE = ('cases: (shift) lists of 1..4 angular / first-order dispersive / higher-
         'segmented apertures with per-segment tilts, non-square output pixels, os 1..3. '
         'distinct = (kind, shapes, element kinds, order, sampling class); non-trivial = everything but a single zero tilt'
         ' Extremes stream: every length scaled by 1e-9..1e3, the same tilt objects asked at wavelengths 3e-6..3e-4 apart (relative) and compared with fresh objects, lists of up to 47 tilt elements, almost-square output pixels, planes with more than 2**18 samples (1-D-like and 513..530 square; oracle only).')
-TRUSTED = ['np.linalg.lstsq returns a solution of the normal equations of the masked basis (contract; hypothesis hN of fit_tilt_is_least_squares; the oracle re-solves them)',
+TRUSTED = ['scipy.optimize.leastsq / scipy.integrate.quad: root of the generated residual / the integral (contract DispersiveSolved)',
+           'np.linalg.lstsq returns a solution of the normal equations of the masked basis (contract; hypothesis hN of fit_tilt_is_least_squares; the oracle re-solves them)',
            'np.einsum / reshape / broadcasting as modelled in Model/Tilt.lean; propagate_dft as modelled for C02']
-UNPROVEN = ['higher-order DispersiveTilt trace/dispersion (scipy.optimize.leastsq, scipy.integrate.quad): oracle residual checks only',
-            'lstsq solves the normal equations: contract, checked numerically',
+UNPROVEN = ['higher-order DispersiveTilt: that scipy.optimize.leastsq(x0=0) converges to a root of the generated residuals (contract DispersiveSolved; oracle on every element); such elements are not run through the Float model',
+            'lstsq solves the normal equations: the single trusted fact of the fit clause, checked numerically on every case',
             'tilt-list sharing between products (aliasing) and Plane.copy in fit_tilt(inplace=False): correspondence + oracle']
 ASSUMPTIONS = ['planes with > 2**18 samples are generated for length scales >= 1e-6 only: with pixel scales ~1e-11 m and ~1e5 samples the tip column '
                'of the unscaled basis [1, r*px, -c*px] falls below np.linalg.lstsq\'s rank cutoff (eps*N) and is dropped (recorded tilt 0): a unit-dependence of '
